@@ -55,6 +55,20 @@ CHECKS = {
         "new sys.modules keys and the final globals must equal CPython's.",
         "Relative forms run with __name__/__package__ set inside the vendored package.",
         "DESIGN.md section 3, C14"),
+    "C15": (
+        "Hypothesis-generated 3.8-valid programs + pool/repository scripts, converted by worker processes "
+        "under every host interpreter (3.10-3.13) and evaluated under every runtime (3.8-3.13); "
+        "differential oracle per runtime: stdout of the output == stdout of the source there",
+        "Persistent worker processes (stdlib-only, 3.8 syntax, JSON lines over pipes) convert each "
+        "program under 4 hosts x 8 configurations; every distinct output text is evaluated on 6 "
+        "runtimes and must print what the source prints on that runtime. The generator includes the "
+        "version-sensitive forms (walrus as index / set element, starred tuple index, positional-only "
+        "parameters, f-string conversions/specs, lambda defaults). Interpreters are discovered at run "
+        "time; the check exits 2 (cannot decide) with fewer than two runtimes.",
+        "3.14 is not in the image. Only stdout is compared across runtimes. One open finding "
+        "(ast.unparse writes host-version syntax) is excluded per (host, unparser) cell by structural "
+        "predicates on the source.",
+        "DESIGN.md section 3, C15"),
     "C07": (
         "complete sweep of probe-instrumented statement templates x 3 placements x 8 configurations + "
         "Hypothesis-drawn target patterns with a probe at every leaf; oracle: equality of the ordered "
